@@ -104,6 +104,36 @@ func forgeCases(c *harness.C) []harness.Case {
 						}
 					}})
 			}
+			// two components moved in opposite directions (their sum / product is unchanged: what a
+			// verifier that checks one combined equation would still accept)
+			for i := 0; i <= l; i++ {
+				for j := i + 1; j <= l; j++ {
+					i, j := i, j
+					tampers = append(tampers,
+						tamper{fmt.Sprintf("a[%d]-up-a[%d]-down", i, j), func(a, b []*math.G1) {
+							if j < len(a) {
+								a[i].Add(cv.GenG1)
+								a[j].Sub(cv.GenG1)
+							}
+						}},
+						tamper{fmt.Sprintf("b[%d]-up-b[%d]-down", i, j), func(a, b []*math.G1) {
+							if j < len(b) {
+								b[i].Add(cv.GenG1)
+								b[j].Sub(cv.GenG1)
+							}
+						}},
+						tamper{fmt.Sprintf("a[%d]-a[%d]-swapped", i, j), func(a, b []*math.G1) {
+							if j < len(a) {
+								a[i], a[j] = a[j], a[i]
+							}
+						}},
+						tamper{fmt.Sprintf("b[%d]-b[%d]-swapped", i, j), func(a, b []*math.G1) {
+							if j < len(b) {
+								b[i], b[j] = b[j], b[i]
+							}
+						}})
+				}
+			}
 			for _, tp := range tampers {
 				ps.VerifTamper = tp.f
 				var req []byte
